@@ -92,12 +92,12 @@ func (ex *exec) initPackage(pkg *ssa.Package) {
 			ex.globals[v] = &cell
 		}
 	}
-	if !ex.prog.interpreted(pkg.Pkg.Path()) {
-		return
+	if !ex.prog.interpreted(pkg.Pkg.Path()) || !strings.Contains(pkg.Pkg.Path(), ".") {
+		return // standard library and un-modelled packages: globals stay zero
 	}
 	if init := pkg.Func("init"); init != nil && init.Blocks != nil {
 		ex.inInit++
-		call(ex, nil, token.NoPos, init, nil)
+		callSSABody(ex, nil, token.NoPos, init, nil, nil)
 		ex.inInit--
 	}
 }
@@ -427,6 +427,10 @@ func callSSA(ex *exec, caller *frame, callpos token.Pos, fn *ssa.Function, args 
 	if ext := ex.prog.intrinsic(fn, name); ext != nil {
 		return ext(fr, args)
 	}
+	if ex.inInit > 0 && fn.Pkg != nil && fn.Name() == "init" && fn == fn.Pkg.Func("init") {
+		ex.initPackage(fn.Pkg)
+		return nil
+	}
 	pkgPath := ex.prog.pkgPathOf(fn)
 	if !ex.prog.interpreted(pkgPath) {
 		if ex.inInit > 0 {
@@ -444,6 +448,38 @@ func callSSA(ex *exec, caller *frame, callpos token.Pos, fn *ssa.Function, args 
 	if ex.prog.isRepoFn(fn) {
 		ex.funcs[name] = true
 	}
+	if ex.local == nil && ex.prog.pure[name] && anySym(args) {
+		if v, ok := ex.summarize(caller, callpos, fn, args, env); ok {
+			return v
+		}
+	}
+	return callSSABody(ex, caller, callpos, fn, args, env)
+}
+
+// anySym reports whether an argument (or a struct it points to) holds a symbolic scalar.
+func anySym(args []value) bool {
+	for _, a := range args {
+		switch x := a.(type) {
+		case symv:
+			return true
+		case *value:
+			if x != nil {
+				if st, ok := (*x).(structure); ok {
+					for _, f := range st {
+						if isSym(f) {
+							return true
+						}
+					}
+				}
+			}
+		}
+	}
+	return false
+}
+
+func callSSABody(ex *exec, caller *frame, callpos token.Pos, fn *ssa.Function, args []value, env []value) value {
+	fr := &frame{ex: ex, caller: caller, fn: fn}
+	name := fn.String()
 	ex.depth++
 	if ex.depth > 400 {
 		ex.abort("unwind", "call depth > 400 at %s", name)
@@ -504,6 +540,13 @@ func runFrame(fr *frame) {
 		}
 		fr.panicking = true
 		fr.panic = r
+		if fr.ex.panicSite == "" {
+			s := ""
+			for f, n := fr, 0; f != nil && n < 12; f, n = f.caller, n+1 {
+				s += " <- " + f.fn.String()
+			}
+			fr.ex.panicSite = s
+		}
 		if fr.ex.cfg.Verbose {
 			fmt.Fprintf(os.Stderr, "Panicking in %s: %v\n", fr.fn, toString(r.(targetPanic).v))
 		}
@@ -564,6 +607,7 @@ func doRecover(caller *frame) value {
 	if caller != nil && !caller.panicking &&
 		caller.caller != nil && caller.caller.panicking {
 		caller.caller.panicking = false
+		caller.ex.panicSite = ""
 		p := caller.caller.panic
 		caller.caller.panic = nil
 		switch p := p.(type) {
